@@ -1247,7 +1247,12 @@ func (cs *clientStream) encodeAndWriteHeaders(req *http.Request) error {
 	hdrs := cc.hbuf.Bytes()
 
 	// Write the request.
-	endStream := !res.HasBody && !res.HasTrailers
+	//
+	// A request without a body ends with its headers: writeRequest sends
+	// nothing after them when there is no body, so announced trailers are
+	// not sent (as in HTTP/1, where trailers follow a chunked body) and
+	// END_STREAM must be on the HEADERS frame.
+	endStream := !res.HasBody
 	cs.sentHeaders = true
 	err = cc.writeHeaders(cs.ID, endStream, int(cc.maxFrameSize), hdrs)
 	traceWroteHeaders(cs.trace)
